@@ -508,8 +508,15 @@ class ExtraCoords(ExtraCoordsABC):
                 f"dimensions: len(offset) = {len(offset)}; No. cube dimensions = {ndim}.")
         # If ExtraCoords object built on WCS, resample using WCS insfrastructure
         if self._wcs is not None:
+            if self._mapping is not None:
+                # Factors and offsets are given per array axis of the cube: the WCS needs the ones
+                # of the cube pixel axis each of its own pixel dimensions is mapped to.
+                factor = [factor[ndim - 1 - pixel_axis] for pixel_axis in self._mapping]
+                offset = [offset[ndim - 1 - pixel_axis] for pixel_axis in self._mapping]
             new_ec.wcs = HighLevelWCSWrapper(ResampledLowLevelWCS(self._wcs.low_level_wcs,
                                                                   factor, offset))
+            if self._mapping is not None:
+                new_ec.mapping = self._mapping
             return new_ec
         # Else interpolate the lookup table coordinates.
         factor = np.asarray(factor)
